@@ -88,6 +88,7 @@ def run(ctx, run):
     _symbol_identity(ctx, run)
     _subno_bounds_independent(ctx, run)
     _casefold_endpoints(ctx, run)
+    _restart_inside_failed_attempt(ctx, run)
 
 
 def _metachars(ctx, run):
@@ -353,3 +354,37 @@ def _casefold_endpoints(ctx, run):
                               "character and pages that match only through the rest of the range are not found"
                               % (l["member"], sorted(src)), ex.loc(f, i), witness={"source": sorted(src)})
     run.floor("case-folded range endpoints", n, 2)
+
+
+def _restart_inside_failed_attempt(ctx, run):
+    """ure_exec has no `.*` prefix in its automaton: when a partial match fails it must resume the scan
+    one character after the *beginning* of the failed attempt (ms + 1), or a match that starts
+    inside it is missed ("ab" in "aab")."""
+    f = ctx.prog.need("ure_exec", "src/ure.c")
+    run.touch(f)
+    n = 0
+    for bid, i in flow.all_events(f):
+        e = f.exprs[i]
+        if not (e["k"] == "asg" and e["op"] == "=" and f.exprs[ex.skip(f, e["c"][0])].get("name") == "stp"
+                and ex.pretty(f, e["c"][1]).replace("(", "").replace(")", "").endswith("dfa->states")):
+            continue
+        if loops.innermost(f, bid) is None:
+            continue            # the initialisation before the loop
+        n += 1
+        ok = False
+        for b2, j in flow.all_events(f):
+            e2 = f.exprs[j]
+            if e2["k"] == "asg" and e2["op"] == "=" and f.exprs[ex.skip(f, e2["c"][0])].get("name") == "sp" \
+                    and "ms" in atoms.Operand(f, e2["c"][1]).locals:
+                # on the way to the reset: its block reaches the reset's block without leaving the failing branch
+                if b2 == bid or (bid in flow.reach_from(f, b2) and flow.dominates(f, flow.elem_pos(f)[j][0], bid) or
+                                 any(s == bid for s, _ in f.edges(b2))):
+                    ok = True
+        key = "RF-DEP:ure_exec:restart-after-failed-attempt"
+        if ok:
+            run.holds("RF-DEP", key, "the reset after a failed partial match moves the scan pointer back to ms + 1", ex.loc(f, i))
+        else:
+            run.violation("RF-DEP", key, "after a failed partial match the automaton is reset but the scan goes on behind the character "
+                          "that failed: a match beginning inside the failed attempt is missed (\"ab\" in \"aab\", \"needle\" in "
+                          "\"neneedle\") - pages that contain the text are not found", ex.loc(f, i))
+    run.floor("automaton resets inside the matching loop of ure_exec", n, 1)
